@@ -315,6 +315,9 @@ def setInitLoop : Nat → State → Nat → Nat → Nat → Nat → Nat → List
     | .fail s1 e => .fail s1 e
     | .fault w => .fault w
 
+/-- tokens of the `n` elements from byte position `pos` on (the replaced elements `mpt_buffer_set` saves aside) -/
+def savedToks (d : List Byte) (pos sz n : Nat) : List Nat := (List.range n).map fun i => rdTok d (pos + i * sz)
+
 /-- default-construct the gap `[used, pos)` of `mpt_buffer_set`; a failure sets `_used` and is fatal -/
 def setGapLoop : Nat → State → Nat → Nat → Nat → Out Unit
   | 0, s, _, _, _ => .ok s ()
@@ -345,23 +348,28 @@ def bufferSetTyped (s : State) (b : Nat) (x : Buf) (t : Traits) (src : Option Tr
         -- plain data
         let d1 := if used < pos then Mem.write x.data used (zeros (pos - used)) else x.data
         .ok (setUsed s b x (Mem.write d1 pos bytes) (max used stop)) (Int.ofNat (len / esz))
+      else if st.init then
+        -- the elements that are replaced stay alive (saved aside) until their replacements are constructed:
+        -- a new element may refer to the same entity as the one it replaces
+        let olds := if t.fini.isSome then savedToks x.data pos esz (iters pos (min used stop) esz) else []
+        match setGapLoop (iters used pos esz) s b used esz with
+        | .ok s2 _ =>
+          (match setInitLoop (iters pos stop esz) s2 b pos stop used pos bytes hasSrc esz t.fini.isSome 0 with
+           | .ok s3 c => .ok { s3 with log := s3.log ++ olds.map Ev.fini } c
+           | .fail s3 e => .fail s3 e
+           | .fault w => .fault w)
+        | .fail s2 e => .fail s2 e
+        | .fault w => .fault w
       else
-        -- finalise the elements that are overwritten
+        -- ownership is transferred by raw copy: the elements that are overwritten are finalised first
         let r1 := if t.fini.isSome then finiLoop (iters pos (min used stop) esz) s b pos esz else .ok s ()
         match r1 with
         | .ok s1 _ =>
-          if st.init then
-            match setGapLoop (iters used pos esz) s1 b used esz with
-            | .ok s2 _ =>
-              setInitLoop (iters pos stop esz) s2 b pos stop used pos bytes hasSrc esz t.fini.isSome 0
-            | .fail s2 e => .fail s2 e
-            | .fault w => .fault w
-          else
-            match s1.buf? b with
-            | none => .fault "buffer_set: freed buffer"
-            | some y =>
-              let d1 := if used < pos then Mem.write y.data used (zeros (pos - used)) else y.data
-              .ok (setUsed s1 b y (Mem.write d1 pos bytes) (max used stop)) (Int.ofNat (len / esz))
+          (match s1.buf? b with
+           | none => .fault "buffer_set: freed buffer"
+           | some y =>
+             let d1 := if used < pos then Mem.write y.data used (zeros (pos - used)) else y.data
+             .ok (setUsed s1 b y (Mem.write d1 pos bytes) (max used stop)) (Int.ofNat (len / esz)))
         | .fail s1 e => .fail s1 e
         | .fault w => .fault w
 
@@ -742,6 +750,11 @@ def reserveKeep (s : State) (h b : Nat) (x : Buf) (len : Nat) (traits : Option T
   | .fail s1 e => .fail s1 e
   | .fault w => .fault w
 
+/-- size of the new buffer in the shared / immutable branch of `mpt_array_reserve`: content that is copied is kept
+    completely -/
+def reserveLen (x : Buf) (len : Nat) (traits : Option Traits) : Nat :=
+  if x.traits = traits ∧ ¬ x.uncopyable then max len (x.used - x.used % esize x.traits) else len
+
 /-- `mpt_array_reserve(arr, len, traits)`: identity of the buffer -/
 def arrayReserve (s : State) (h len : Nat) (traits : Option Traits) : Out Nat :=
   if esize traits = 0 then .fail s .null
@@ -752,7 +765,7 @@ def arrayReserve (s : State) (h len : Nat) (traits : Option Traits) : Out Nat :=
       match s.buf? b with
       | none => .fault "reserve: freed buffer"
       | some x =>
-        if x.shared ∨ x.immutable then reserveNew s h (some b) (roundUp len (esize traits)) traits
+        if x.shared ∨ x.immutable then reserveNew s h (some b) (reserveLen x (roundUp len (esize traits)) traits) traits
         else reserveKeep s h b x (roundUp len (esize traits)) traits
 
 /-- `vsnprintf(base, len, "%s", text)` into the buffer at `pos`: at most `len-1` characters and a NUL -/
@@ -917,6 +930,38 @@ def cutOp (s : State) (h off len : Nat) : Out Nat :=
       | .ok s1 nb => bufferCut s1 nb off len
       | .fail s1 e => .fail s1 e
       | .fault w => .fault w
+
+/-- `mpt_values_prepare(arr, len)` (mptplot/values): `len ≥ 0` appends `len` zeroed doubles, `len < 0` appends a copy
+    of the last `-len` doubles (refused when there are fewer); `dt` = the library's traits of `'d'` -/
+def valuesPrepare (s : State) (h : Nat) (dt : Traits) (len : Int) : Out Nat :=
+  let add := len.natAbs * 8
+  match s.handle h with
+  | none =>
+    if len < 0 then .fail s .null
+    else
+      let nb := s.bufs.length
+      let s1 := (s.newBuf add 0 (some dt)).setHandle h (some nb)
+      match s1.buf? nb with
+      | none => .fault "values_prepare: freed buffer"
+      | some z => .ok (setUsed s1 nb z (Mem.write z.data 0 (zeros add)) add) 0
+  | some b =>
+    match s.buf? b with
+    | none => .fault "values_prepare: freed buffer"
+    | some x =>
+      if x.traits ≠ some dt then .fail s .null
+      else if len < 0 ∧ x.used < add then .fail s .null
+      else
+        match ensure s h b true (x.used + add) with
+        | .ok s1 nb =>
+          (match s1.buf? nb with
+           | none => .fault "values_prepare: freed buffer"
+           | some z =>
+             if x.used + add > z.size then .fault "values_prepare: outside the buffer"
+             else
+               let src := if len < 0 then (z.data.drop (x.used - add)).take add else zeros add
+               .ok (setUsed s1 nb z (Mem.write z.data x.used src) (x.used + add)) x.used)
+        | .fail s1 _ => .fail s1 .null
+        | .fault w => .fault w
 
 /-- private copy of the current size, then `mpt_buffer_insert` and the caller's copy -/
 def binsertOp (s : State) (h pos : Nat) (bytes : List Byte) : Out Nat :=
